@@ -275,3 +275,98 @@ pub fn run_cli(cli: &str, shim: &str, inv: &Invocation) -> RunResult {
     let _ = std::fs::remove_dir_all(&dir);
     rr
 }
+
+// ---- the interactive mode, driven through a pseudo-terminal -----------------------------
+
+unsafe extern "C" {
+    fn posix_openpt(flags: std::ffi::c_int) -> std::ffi::c_int;
+    fn grantpt(fd: std::ffi::c_int) -> std::ffi::c_int;
+    fn unlockpt(fd: std::ffi::c_int) -> std::ffi::c_int;
+    fn ptsname_r(fd: std::ffi::c_int, buf: *mut std::ffi::c_char, len: usize) -> std::ffi::c_int;
+}
+
+/// Run the real binary in interactive mode: stdin is the slave side of a fresh pseudo-terminal
+/// (so `is_terminal()` holds), stdout and stderr are pipes, `TERM=dumb` makes the line editor
+/// read plain lines. `lines` are typed one after the other, followed by end-of-file (^D).
+/// Returns None when no pseudo-terminal can be had (counted by the caller, not an error).
+pub fn run_repl(cli: &str, argv: &[String], lines: &[String]) -> Option<RunResult> {
+    use std::os::fd::FromRawFd;
+    use std::os::unix::fs::OpenOptionsExt;
+    watchdog_start();
+    let n = SANDBOX_CTR.fetch_add(1, Ordering::Relaxed);
+    let dir = format!("{}/r{}", sandbox_root(), n);
+    std::fs::create_dir_all(&dir).expect("sandbox dir");
+    let (master, slave) = unsafe {
+        let m = posix_openpt(2 | 0o400 | 0o2000000); // O_RDWR | O_NOCTTY | O_CLOEXEC
+        if m < 0 || grantpt(m) != 0 || unlockpt(m) != 0 {
+            return None;
+        }
+        let mut buf = [0 as std::ffi::c_char; 128];
+        if ptsname_r(m, buf.as_mut_ptr(), buf.len()) != 0 {
+            return None;
+        }
+        let name = std::ffi::CStr::from_ptr(buf.as_ptr()).to_string_lossy().to_string();
+        let slave = std::fs::OpenOptions::new().read(true).write(true).custom_flags(0o400).open(&name).ok()?;
+        (std::fs::File::from_raw_fd(m), slave)
+    };
+    let mut cmd = Command::new(cli);
+    cmd.args(argv).current_dir(&dir);
+    cmd.env_clear();
+    cmd.env("PATH", "/usr/bin:/bin");
+    cmd.env("NO_COLOR", "1");
+    cmd.env("TERM", "dumb");
+    cmd.stdin(slave);
+    cmd.stdout(Stdio::piped());
+    cmd.stderr(Stdio::piped());
+    let child = match cmd.spawn() {
+        Ok(c) => c,
+        Err(e) => {
+            eprintln!("HARNESS-ERROR: cannot spawn {}: {}", cli, e);
+            std::process::exit(2);
+        }
+    };
+    drop(cmd); // closes our copy of the slave side
+    let flag = std::sync::Arc::new(AtomicBool::new(false));
+    let pid = child.id();
+    let deadline = crate::seams::real_monotonic_ns() + TIMEOUT_S.load(Ordering::Relaxed) * 1_000_000_000;
+    WATCH.lock().unwrap().push((pid, deadline, flag.clone()));
+    // the terminal echoes what is typed back to the master side: drain it; type from a second
+    // thread (the terminal's input queue holds 4 KiB, the writer blocks while it is full)
+    let mut typed: Vec<u8> = vec![];
+    for l in lines {
+        typed.extend_from_slice(l.as_bytes());
+        typed.push(b'\n');
+    }
+    typed.push(4);
+    let mut wm = master.try_clone().ok()?;
+    let writer = std::thread::spawn(move || {
+        let _ = wm.write_all(&typed);
+    });
+    let mut rm = master;
+    let drain = std::thread::spawn(move || {
+        use std::io::Read;
+        let mut b = [0u8; 4096];
+        loop {
+            match rm.read(&mut b) {
+                Ok(0) | Err(_) => break,
+                Ok(_) => {}
+            }
+        }
+    });
+    let out = child.wait_with_output().expect("wait");
+    WATCH.lock().unwrap().retain(|(p, _, _)| *p != pid);
+    let _ = writer.join();
+    let _ = drain.join();
+    let rr = RunResult {
+        exit: out.status.code(),
+        signal: out.status.signal(),
+        stdout: out.stdout,
+        stderr: out.stderr,
+        out_file: None,
+        log: vec![],
+        log_text: String::new(),
+        timed_out: flag.load(Ordering::SeqCst),
+    };
+    let _ = std::fs::remove_dir_all(&dir);
+    Some(rr)
+}
